@@ -11,6 +11,8 @@
 //	                                       of the round are pending
 //	probe <method> <x|r>                   hold c.Lock() (x) or c.RLock() (r) in the harness and
 //	                                       call the method from another goroutine
+//	shape <method>                         the critical-section shape of the method, read from
+//	                                       lru_cache.go with go/parser (see c35Shape)
 //	ops:  g:<k>   Get(k)      p:<k>:<v>   Put(k,v)     d   dump (harness, under c.Lock())
 //
 // observables:
@@ -22,12 +24,22 @@
 //	probe -> blocked | ran:same | ran:changed   (did the call finish while the harness held the
 //	         lock, and did the recency order change meanwhile)
 //
+//	shape -> <locks>:<unlocks>:<deferred unlocks>:<other lock calls>:<recv.Lock() first>:
+//	         <defer recv.Unlock() next>     (hex; "missing" when there is no such method)
+//
+// In gate mode the harness keeps the lock for 1.5 ms after the last call of the round is pending: a
+// waiter that has waited longer than 1 ms switches the mutex to starvation mode (FIFO hand-off), so
+// a method that takes the lock twice is really interleaved with the other calls of the round.
+//
 // The conc and probe cases depend on the scheduler: their observables are histories, every one of
 // which must be linearizable (conc) / must not show a mutation under a lock held by someone else.
 package lrucache
 
 import (
 	"fmt"
+	"go/ast"
+	"go/parser"
+	"go/token"
 	"os"
 	"runtime"
 	"strings"
@@ -210,9 +222,7 @@ func c35Conc(capacity uint, prefill []string, progs [][]string, mode string) str
 			for called.Load() < want {
 				runtime.Gosched()
 			}
-			for j := 0; j < 3; j++ {
-				runtime.Gosched()
-			}
+			time.Sleep(1500 * time.Microsecond) // see the header: starvation mode
 			c.Unlock()
 			for returned.Load() < want { // the round must drain before the gate closes again
 				runtime.Gosched()
@@ -279,9 +289,91 @@ func c35Probe(method, hold string) string {
 	return "ran:changed"
 }
 
+// c35Shape reads lru_cache.go (the file under test) and reports the critical-section shape of a
+// method of LRUCache: calls of <recv>.Lock(), of <recv>.Unlock(), deferred ones among the latter,
+// other lock calls (RLock, RUnlock, TryLock, TryRLock), whether <recv>.Lock() is a statement of the
+// body before which the receiver is not mentioned, and whether defer <recv>.Unlock() follows it.
+// C35_linearizable models a method as ONE exclusive critical section around the body: 1:1:1:0:1:1.
+func c35Shape(method string) string {
+	fset := token.NewFileSet()
+	file, err := parser.ParseFile(fset, "lru_cache.go", nil, 0)
+	if err != nil {
+		return "err:parse"
+	}
+	for _, d := range file.Decls {
+		fd, ok := d.(*ast.FuncDecl)
+		if !ok || fd.Recv == nil || len(fd.Recv.List) != 1 || fd.Body == nil || fd.Name.Name != method {
+			continue
+		}
+		if len(fd.Recv.List[0].Names) != 1 {
+			return "err:receiver"
+		}
+		recv := fd.Recv.List[0].Names[0].Name
+		isRecvCall := func(e ast.Expr, name string) bool {
+			ce, ok := e.(*ast.CallExpr)
+			if !ok {
+				return false
+			}
+			sel, ok := ce.Fun.(*ast.SelectorExpr)
+			if !ok || sel.Sel.Name != name {
+				return false
+			}
+			id, ok := sel.X.(*ast.Ident)
+			return ok && id.Name == recv
+		}
+		var locks, unlocks, deferred, other uint64
+		ast.Inspect(fd.Body, func(n ast.Node) bool {
+			switch x := n.(type) {
+			case *ast.DeferStmt:
+				if isRecvCall(x.Call, "Unlock") {
+					deferred++
+				}
+			case *ast.CallExpr:
+				if sel, ok := x.Fun.(*ast.SelectorExpr); ok {
+					switch sel.Sel.Name {
+					case "Lock":
+						locks++
+					case "Unlock":
+						unlocks++
+					case "RLock", "RUnlock", "TryLock", "TryRLock":
+						other++
+					}
+				}
+			}
+			return true
+		})
+		first, second := uint64(0), uint64(0)
+		for i, stmt := range fd.Body.List {
+			if es, ok := stmt.(*ast.ExprStmt); ok && isRecvCall(es.X, "Lock") {
+				first = 1
+				if i+1 < len(fd.Body.List) {
+					if ds, ok := fd.Body.List[i+1].(*ast.DeferStmt); ok && isRecvCall(ds.Call, "Unlock") {
+						second = 1
+					}
+				}
+				break
+			}
+			mentions := false
+			ast.Inspect(stmt, func(n ast.Node) bool {
+				if id, ok := n.(*ast.Ident); ok && id.Name == recv {
+					mentions = true
+				}
+				return true
+			})
+			if mentions {
+				break
+			}
+		}
+		return fmt.Sprintf("%x:%x:%x:%x:%x:%x", locks, unlocks, deferred, other, first, second)
+	}
+	return "missing"
+}
+
 func c35Run(in string) string {
 	f := strings.Split(in, " ")
 	switch f[0] {
+	case "shape":
+		return c35Shape(f[1])
 	case "seq":
 		c := NewLRUCache[uint64, uint64](uint(vu.UnX(f[1])))
 		out := make([]string, 0, len(f)-2)
@@ -407,6 +499,8 @@ func c35Gen(r *vu.RNG, n int, emit func(string)) {
 		emit("probe " + m + " x")
 		emit("probe " + m + " r")
 	}
+	emit("shape Get")
+	emit("shape Put")
 	broken := c35Broken()
 	if mode == "stress" { // concurrent histories only (run under -race in the thorough tier)
 		for i := 0; i < n && !broken; i++ {
